@@ -258,7 +258,7 @@ def _c15():
     # the usable parameter is not the first redirect-like one; leading blanks / control characters in front of the protocol
     out += ["http://a.com/out?l=en&url=http%3A%2F%2Fb.com", "https://www.google.com/url?sa=D&q=http%3A%2F%2Fb.com%2Fx", "http://a.com/p?q=search&url=http://b.com/y",
             "http://a.com/?u=//&next=/home", "http://a.com/?url=http://b.com&url=http://c.com", " http://a.com/login?next=/home", "\x00http://a.com/login?next=/home",
-            "\t//a.com/r?u=/x", "  a.com/login?next=/home", "\u00a0http://a.com/r?url=/x#f"]
+            "\t//a.com/r?u=/x", "  a.com/login?next=/home", "\u00a0http://a.com/r?url=/x#f", "http:/\x00/a.com/login?next=/home", "ht\x85tp://a.com/r?u=/x"]
     # self-referential / growing shapes
     out += ["http://a.com/?u=/?u=/", "http://a.com/r?url=%2Fr%3Furl%3D%252Fr", "http://a&u=/b", "http://a.com&url=%2Fx", "http://a.com/?next=/?next=/x", "/?u=/x", "/x?u=/x"]
     # AMP / Marfeel caches with empty and non-empty tails
